@@ -92,6 +92,7 @@ type scen struct {
 	// long-poll and event-stream handlers do); shutdown still has to mark it for closing
 	KeepAliveField bool
 	Streamed       bool // the busy handler answers through the chunked writer (Response.HijackWriter)
+	StreamedAbort  bool // ... installed, then AbortWithMsg instead of a Write
 }
 
 // readAll reads until EOF/error with a deadline and returns what arrived.
@@ -163,6 +164,7 @@ func oneScenario(w *mon.W, c *mon.Case) {
 	s.RegistryFails = r.Chance(8)
 	s.KeepAliveField = r.Chance(3)
 	s.Streamed = r.Chance(3)
+	s.StreamedAbort = s.Streamed && r.Chance(3)
 	s.RegistrySlow = !s.RegistryFails && r.Chance(10)
 	if s.RegistryFails {
 		// violations in this sub-domain are attributed separately (see known_findings.txt)
@@ -228,6 +230,18 @@ func oneScenario(w *mon.W, c *mon.Case) {
 		}
 		if s.KeepAliveField {
 			ctx.Response.Header.Set("Connection", "keep-alive")
+		}
+		if s.Streamed && s.StreamedAbort {
+			// the producer of a streaming handler fails before its first piece: the writer is
+			// installed, the answer is given with AbortWithMsg (which resets the header fields:
+			// "after shutdown" travels in the body)
+			ctx.Response.HijackWriter(resp.NewChunkedBodyWriter(&ctx.Response, ctx.GetWriter()))
+			k := 1
+			if atomic.LoadInt32(&shutdownBegan) == 1 {
+				k = 2
+			}
+			ctx.AbortWithMsg(string(wire.PosBody(k, 20000)), 200)
+			return
 		}
 		if s.Streamed {
 			// the response-streaming API: the writer sends the head itself at its first Write
@@ -562,7 +576,12 @@ func oneScenario(w *mon.W, c *mon.Case) {
 			return
 		}
 		m := msgs[0]
-		if m.Status != 200 || !bytes.Equal(m.Body, wire.PosBody(1, 20000)) {
+		afterInBody := s.StreamedAbort && bytes.Equal(m.Body, wire.PosBody(2, 20000))
+		if afterInBody && !m.HasToken("Connection", "close") {
+			fail("no-connection-close", "the handler of in-flight request %d (chunked writer installed, answered with AbortWithMsg) returned after shutdown began but its response lacks Connection: close (fields %v)", i, m.Fields)
+			return
+		}
+		if m.Status != 200 || !(bytes.Equal(m.Body, wire.PosBody(1, 20000)) || afterInBody) {
 			fail("busy-response", "in-flight request %d got status %d with a %d-byte body, want 200 with 20000 bytes", i, m.Status, len(m.Body))
 			return
 		}
